@@ -12,20 +12,24 @@ read / write reductions the vocabulary of `Sdmmc.Props.C01Read` / `Sdmmc.Props.C
 
 STATUS: PROVED (no theorem below is `_partial`).
 
-FINDING (`io_seek_current_incomplete`, `Example.current_refused_on_3GiB_file`): `Seek::seek(
-SeekFrom::Current(x))` converts `x` to `i32` although positions are `u32`; on a file longer than
-`i32::MAX` bytes a relative seek by more than 2 GiB − 1 (either direction) is answered
-`InvalidOffset` although the target lies inside the file.  `io_seek_refusal_exact` shows that this
-is the ONLY kind of request refused by a conversion although its target is legitimate (`Start` and
-`End` lose nothing, and neither does `Current` on files up to `i32::MAX` bytes).  The inherent
-`File::seek_from_current(i32)` has the same range by its type; `seek_from_start` reaches every
-position.
+REPAIRED FINDING.  Until the repair of `Seek::seek` (`SeekFrom::Current(x)` used to convert `x` to
+`i32` and call `seek_from_current`, so that on a file longer than `i32::MAX` bytes a relative seek
+by more than 2 GiB − 1 was refused although its target lay inside the file — formerly
+`io_seek_current_incomplete`), the conversions lost legitimate targets.  The model follows the
+repaired code: `Current(x)` reads the position with the raw `file_offset`, computes
+`i64::from(pos).checked_add(x)`, converts the target to `u32` and seeks from the start.  Now
+`io_seek_complete`: on a file whose length fits `u32`, `seek` IS the byte-array cursor — every target
+in `[0, len]` is reached, and the only refusals are targets outside the file (`io_seek_refused_iff`),
+an `i64` overflow of `pos + x` being one of them (`io_seek_overflow_outside`).  The former
+counterexample now succeeds (`Example.current_on_3GiB_file`).
 
 Other observations stated below:
-* the conversions come first: a refused argument is answered `InvalidOffset` even on a handle that
-  is not open and even with the manager borrowed (`io_seek_conversion_first`);
-* `Seek::seek` never panics, for any argument in any state (`io_seek_total`) — `End(i64::MIN)`
-  included (`Example.end_i64_min`);
+* order of refusals (`io_seek_conversion_first`, `io_seek_current_handle_first`): `Start` / `End`
+  convert their argument first — a refused argument is `InvalidOffset` even on a handle that is not
+  open and even with the manager borrowed; `Current` looks at the file first — `LockError` /
+  `BadHandle` whatever the offset, and `InvalidOffset` only on an open handle;
+* `Seek::seek` never panics, for any argument in any state (`io_seek_total`) — `End(i64::MIN)`,
+  `Current(i64::MIN)`, `Current(i64::MAX)` included (`Example.end_i64_min`);
 * empty buffers: `Read::read` / `Write::write` make no call at all, so they answer `Ok(0)` on a
   handle that is not open, where the raw calls answer `BadHandle` (`io_read_empty`,
   `io_write_empty`, `Example.empty_on_bad_handle`); and the raw `write` of zero bytes is NOT a
@@ -45,44 +49,67 @@ open Sdmmc.Lemmas.MHoare (resetLogs)
 
 /-- **Main theorem.**  `h` is an open file handle (slot `i`, record `f`), the manager is not
 borrowed.  For EVERY argument (any natural number as `Start`, any integer as `End` / `Current` — the
-`u64` / `i64` values are among them): when the integer conversions accept it (`ConvOK`), the answer
-is the byte-array cursor's — `Ok(t)` with `t` the target position if `0 ≤ t ≤ len`, the offset of
-slot `i` becomes `t` and nothing else changes (no other file, no table, no device, no cache);
-`InvalidOffset` and nothing at all changed otherwise — and when they refuse it, `InvalidOffset` and
-nothing changed. -/
+`u64` / `i64` values are among them): when the integer arithmetic accepts it (`ConvOK`, which for
+`Current` depends on the position), the answer is the byte-array cursor's — `Ok(t)` with `t` the
+target position if `0 ≤ t ≤ len`, the offset of slot `i` becomes `t` and nothing else changes (no
+other file, no table, no device, no cache); `InvalidOffset` and nothing at all changed otherwise —
+and when it refuses, `InvalidOffset` and nothing changed.  No hypothesis on the file length. -/
 theorem io_seek_refines (s : Mgr) (h i : Nat) (f : FileInfo) (p : SeekFrom) (hl : s.locked = false)
     (hh : s.files.findIdx? (·.rawFile = h) = some i) (hf : s.files[i]? = some f) :
     File.ioSeek h p s =
-      if ConvOK p then
+      if ConvOK f.currentOffset p then
         match seekSpec f.entry.size f.currentOffset p with
         | some t => (.ok t, { s with files := s.files.set i { f with currentOffset := t } })
         | none => (.err .InvalidOffset, s)
       else (.err .InvalidOffset, s) :=
   Lemmas.Wrap.ioSeek_spec hl hh hf p
 
-/-- Exactly which requests are refused by a conversion although the target lies inside the file
-(`size` is a `u32`): `Current(o)` with `o` outside `i32` — nothing else. -/
-theorem io_seek_refusal_exact (size pos : Nat) (p : SeekFrom) (hsz : size ≤ U32_MAX) :
-    (¬ ConvOK p ∧ (seekSpec size pos p).isSome) ↔
-      ∃ o, p = .current o ∧ (o < I32_MIN ∨ I32_MAX < o) ∧ 0 ≤ (pos : Int) + o ∧ (pos : Int) + o ≤ (size : Int) :=
-  Lemmas.Wrap.conv_excludes_iff size pos p hsz
+/-- The arithmetic loses no target: whenever the target lies in `[0, size]` (`size` a `u32`), the
+argument is accepted — all three kinds. -/
+theorem io_seek_conv_complete (size pos : Nat) (p : SeekFrom) (hsz : size ≤ U32_MAX)
+    (ht : (seekSpec size pos p).isSome) : ConvOK pos p :=
+  Lemmas.Wrap.conv_complete size pos p hsz ht
 
-/-- `Start(o)` and `End(o)` lose no legitimate target. -/
-theorem io_seek_start_end_complete (size pos : Nat) (hsz : size ≤ U32_MAX) :
-    (∀ o, (seekSpec size pos (.start o)).isSome → ConvOK (.start o)) ∧
-    (∀ o, (seekSpec size pos (.end_ o)).isSome → ConvOK (.end_ o)) :=
-  ⟨fun o => Lemmas.Wrap.conv_complete_start size pos o hsz, fun o => Lemmas.Wrap.conv_complete_end size pos o hsz⟩
+/-- **Completeness** (replaces the finding `io_seek_current_incomplete`).  On an open file whose
+length fits `u32`, for EVERY `SeekFrom` value: `seek` is exactly the byte-array cursor — `Ok(t)` and
+the offset set to `t` when the target `t` lies in `[0, len]`, `InvalidOffset` and nothing changed
+otherwise. -/
+theorem io_seek_complete (s : Mgr) (h i : Nat) (f : FileInfo) (p : SeekFrom) (hl : s.locked = false)
+    (hh : s.files.findIdx? (·.rawFile = h) = some i) (hf : s.files[i]? = some f)
+    (hsz : f.entry.size ≤ U32_MAX) :
+    File.ioSeek h p s =
+      match seekSpec f.entry.size f.currentOffset p with
+      | some t => (.ok t, { s with files := s.files.set i { f with currentOffset := t } })
+      | none => (.err .InvalidOffset, s) :=
+  Lemmas.Wrap.ioSeek_exact hl hh hf hsz p
 
-/-- `Current(o)` loses no legitimate target on a file of at most `i32::MAX` bytes. -/
-theorem io_seek_current_complete_small (size pos : Nat) (o : Int) (hsz : (size : Int) ≤ I32_MAX) (hpos : pos ≤ size)
-    (ht : (seekSpec size pos (.current o)).isSome) : ConvOK (.current o) :=
-  Lemmas.Wrap.conv_complete_current_small size pos o hsz hpos ht
+/-- What remains refused, exactly: the targets outside the file. -/
+theorem io_seek_refused_iff (s : Mgr) (h i : Nat) (f : FileInfo) (p : SeekFrom) (hl : s.locked = false)
+    (hh : s.files.findIdx? (·.rawFile = h) = some i) (hf : s.files[i]? = some f)
+    (hsz : f.entry.size ≤ U32_MAX) :
+    (File.ioSeek h p s).1 = .err .InvalidOffset ↔
+      ¬ (0 ≤ target f.entry.size f.currentOffset p ∧ target f.entry.size f.currentOffset p ≤ (f.entry.size : Int)) := by
+  rw [Lemmas.Wrap.ioSeek_exact hl hh hf hsz p]
+  unfold seekSpec
+  by_cases hz : 0 ≤ target f.entry.size f.currentOffset p ∧ target f.entry.size f.currentOffset p ≤ (f.entry.size : Int)
+  · rw [if_pos hz]
+    exact ⟨(fun hc => by cases hc), fun hc => absurd hz hc⟩
+  · rw [if_neg hz]
+    exact ⟨fun _ => hz, fun _ => rfl⟩
 
-/-- **Finding.**  On EVERY file longer than `i32::MAX` bytes there is a relative seek whose target is
-inside the file and which the conversion refuses: from the start straight to the end. -/
-theorem io_seek_current_incomplete (size : Nat) (hsz : I32_MAX < (size : Int)) :
-    ¬ ConvOK (.current size) ∧ seekSpec size 0 (.current size) = some size :=
-  Lemmas.Wrap.conv_incomplete_current size hsz
+/-- The `checked_add` refusal is one of them: a sum `pos + x` outside the `i64` range is a target
+outside the file. -/
+theorem io_seek_overflow_outside (size pos : Nat) (o : Int) (hsz : size ≤ U32_MAX)
+    (hov : ¬ (I64_MIN ≤ (pos : Int) + o ∧ (pos : Int) + o ≤ I64_MAX)) :
+    seekSpec size pos (.current o) = none :=
+  Lemmas.Wrap.overflow_outside size pos o hsz hov
+
+/-- `ConvOK` for `Current`, spelled with the two steps of the Rust: `checked_add` succeeds and the
+sum fits `u32`. -/
+theorem io_seek_current_arith (pos : Nat) (o : Int) :
+    ConvOK pos (.current o) ↔
+      (I64_MIN ≤ (pos : Int) + o ∧ (pos : Int) + o ≤ I64_MAX) ∧ 0 ≤ (pos : Int) + o ∧ (pos : Int) + o ≤ (U32_MAX : Int) :=
+  Lemmas.Wrap.convOK_current_iff pos o
 
 /-- **Never a panic**, whatever the state (handle open or not, manager borrowed or not) and whatever
 the argument: `Ok` with one offset of the file table changed, or one of three errors with nothing
@@ -92,17 +119,28 @@ theorem io_seek_total (s : Mgr) (h : Nat) (p : SeekFrom) :
     (∃ e : Err, File.ioSeek h p s = (.err e, s) ∧ (e = .InvalidOffset ∨ e = .BadHandle ∨ e = .LockError)) :=
   Lemmas.Wrap.ioSeek_total s h p
 
-/-- The conversions come first: a refused argument is answered `InvalidOffset` in every state. -/
-theorem io_seek_conversion_first (s : Mgr) (h : Nat) (p : SeekFrom) (hc : ¬ ConvOK p) :
-    File.ioSeek h p s = (.err .InvalidOffset, s) :=
-  Lemmas.Wrap.ioSeek_conv_fail s h p hc
+/-- `Start` / `End`: the conversions come first — a refused argument is answered `InvalidOffset` in
+every state (handle open or not, manager borrowed or not).  This does NOT hold for `Current` any
+more, see `io_seek_current_handle_first`. -/
+theorem io_seek_conversion_first (s : Mgr) (h pos : Nat) (p : SeekFrom) (hk : p.isCurrent = false)
+    (hc : ¬ ConvOK pos p) : File.ioSeek h p s = (.err .InvalidOffset, s) :=
+  Lemmas.Wrap.ioSeek_conv_fail s h pos p hk hc
 
-/-- An accepted argument on a handle that is not open: `BadHandle` (not the panic of `offset()`,
-which is not reached); with the manager borrowed: `LockError`. -/
-theorem io_seek_bad_handle (s : Mgr) (h : Nat) (p : SeekFrom) (hc : ConvOK p) :
+/-- `Current`: the file comes first — with the manager borrowed the answer is `LockError`, on a
+handle that is not open it is `BadHandle`, for EVERY offset (`i64::MIN`, `i64::MAX` included); an
+`InvalidOffset` is therefore only ever answered on an open handle. -/
+theorem io_seek_current_handle_first (s : Mgr) (h : Nat) (o : Int) :
+    (s.locked = true → File.ioSeek h (.current o) s = (.err .LockError, s)) ∧
+    (s.locked = false → h ∉ s.files.map (·.rawFile) → File.ioSeek h (.current o) s = (.err .BadHandle, s)) :=
+  ⟨Lemmas.Wrap.ioSeek_current_locked s h o, Lemmas.Wrap.ioSeek_current_bad s h o⟩
+
+/-- An argument that is not refused up front (`Current`: any; `Start` / `End`: accepted by the
+conversions) on a handle that is not open: `BadHandle` (not the panic of `offset()`, which is not
+reached); with the manager borrowed: `LockError`. -/
+theorem io_seek_bad_handle (s : Mgr) (h pos : Nat) (p : SeekFrom) (hc : p.isCurrent = true ∨ ConvOK pos p) :
     (s.locked = false → h ∉ s.files.map (·.rawFile) → File.ioSeek h p s = (.err .BadHandle, s)) ∧
     (s.locked = true → File.ioSeek h p s = (.err .LockError, s)) :=
-  ⟨fun hl hb => Lemmas.Wrap.ioSeek_bad s h p hl hc hb, fun hl => Lemmas.Wrap.ioSeek_locked s h p hl hc⟩
+  ⟨fun hl hb => Lemmas.Wrap.ioSeek_bad s h pos p hl hc hb, fun hl => Lemmas.Wrap.ioSeek_locked s h pos p hl hc⟩
 
 /-- As the user of the driver protocol observes it (`wstep`): a seek lists no device write and no
 device read, and leaves device, cache, directory table and volume table alone — in every state. -/
@@ -281,24 +319,33 @@ theorem end_i64_min : (File.ioSeek 1 (.end_ I64_MIN) mgr).1 = .err .InvalidOffse
 def big : FileInfo := { file with entry := { entry with size := 3221225472 }, currentOffset := 0 }
 def mgrBig : Mgr := { mgr with files := [big, file2] }
 
-/-- **The finding, concretely.**  On the 3 GiB file, `Current(2^31)` from position 0 has the target
-`2^31`, inside the file — the byte-array cursor accepts it — and is answered `InvalidOffset`;
-`Current(2^31 - 1)` is accepted; the same target is reachable with `Start(2^31)` and with
-`End(-2^30)`; and from position 3 GiB, `Current(-2^31 - 1)` is refused likewise. -/
-theorem current_refused_on_3GiB_file :
+/-- **The former finding, repaired.**  On the 3 GiB file, `Current(2^31)` from position 0 — refused
+before the repair — is `Ok(2^31)`; so is the whole way, `Current(3 GiB)`; one byte further is
+`InvalidOffset`; from the end, `Current(-2^31 - 1)` and `Current(-3 GiB)` succeed, one byte further
+does not; and the byte-array cursor agrees in every case. -/
+theorem current_on_3GiB_file :
     seekSpec 3221225472 0 (.current 2147483648) = some 2147483648 ∧
-    (File.ioSeek 1 (.current 2147483648) mgrBig).1 = .err .InvalidOffset ∧
-    (File.ioSeek 1 (.current 2147483647) mgrBig).1 = .ok 2147483647 ∧
-    (File.ioSeek 1 (.start 2147483648) mgrBig).1 = .ok 2147483648 ∧
-    (File.ioSeek 1 (.end_ (-1073741824)) mgrBig).1 = .ok 2147483648 ∧
-    seekSpec 3221225472 3221225472 (.current (-2147483649)) = some 1073741823 ∧
-    (File.ioSeek 1 (.current (-2147483649)) (File.ioSeek 1 (.end_ 0) mgrBig).2).1 = .err .InvalidOffset := by
-  decide +kernel
+    (File.ioSeek 1 (.current 2147483648) mgrBig).1 = .ok 2147483648 ∧
+    (File.ioSeek 1 (.current 3221225472) mgrBig).1 = .ok 3221225472 ∧
+    (File.ioSeek 1 (.current 3221225473) mgrBig).1 = .err .InvalidOffset ∧
+    (File.ioSeek 1 (.current (-1)) mgrBig).1 = .err .InvalidOffset ∧
+    (File.ioSeek 1 (.current (-2147483649)) (File.ioSeek 1 (.end_ 0) mgrBig).2).1 = .ok 1073741823 ∧
+    (File.ioSeek 1 (.current (-3221225472)) (File.ioSeek 1 (.end_ 0) mgrBig).2).1 = .ok 0 ∧
+    (File.ioSeek 1 (.current (-3221225473)) (File.ioSeek 1 (.end_ 0) mgrBig).2).1 = .err .InvalidOffset ∧
+    (File.ioSeek 1 (.current 2147483648) mgrBig).2.files.map (·.currentOffset) = [2147483648, 0] := by
+  refine ⟨?_, ?_, ?_, ?_, ?_, ?_, ?_, ?_, ?_⟩ <;> decide +kernel
 
-/-- The conversions come first: handle 9 is not open, yet `Start(2^32)` is `InvalidOffset`;
-`Start(42)` is `BadHandle`; no panic. -/
+/-- The hypothesis of `io_seek_complete` holds of that file. -/
+example : big.entry.size ≤ U32_MAX := by decide
+
+/-- Order of refusals: handle 9 is not open, yet `Start(2^32)` and `End(1)` are `InvalidOffset`;
+`Start(42)` is `BadHandle`; `Current` is `BadHandle` whatever the offset; no panic. -/
 example : (File.ioSeek 9 (.start 4294967296) mgr).1 = .err .InvalidOffset ∧
-    (File.ioSeek 9 (.start 42) mgr).1 = .err .BadHandle := by decide +kernel
+    (File.ioSeek 9 (.end_ 1) mgr).1 = .err .InvalidOffset ∧
+    (File.ioSeek 9 (.start 42) mgr).1 = .err .BadHandle ∧
+    (File.ioSeek 9 (.current 0) mgr).1 = .err .BadHandle ∧
+    (File.ioSeek 9 (.current I64_MAX) mgr).1 = .err .BadHandle ∧
+    (File.ioSeek 9 (.current I64_MIN) mgr).1 = .err .BadHandle := by decide +kernel
 
 /-- Empty buffers on a handle that is not open: the wrappers say `Ok(0)`, the raw calls `BadHandle`;
 the observers panic. -/
@@ -336,7 +383,8 @@ example : (File.length 1 mgr).1 = .ok 1300 ∧ (File.offset 1 mgr).1 = .ok 1000 
 example : ∀ s, s = { mgrW with locked := true } →
     (File.ioRead 1 0 s).1 = .ok [] ∧ (File.ioRead 1 5 s).1 = .err .LockError ∧
     (File.ioWrite 1 [1] s).1 = .err .LockError ∧ (File.length 1 s).1 = .panic "Corrupt file ID" ∧
-    (File.ioSeek 1 (.start 5) s).1 = .err .LockError ∧ (File.ioSeek 1 (.start 4294967296) s).1 = .err .InvalidOffset := by
+    (File.ioSeek 1 (.start 5) s).1 = .err .LockError ∧ (File.ioSeek 1 (.start 4294967296) s).1 = .err .InvalidOffset ∧
+    (File.ioSeek 1 (.current 5) s).1 = .err .LockError ∧ (File.ioSeek 1 (.current I64_MAX) s).1 = .err .LockError := by
   intro s hs; subst hs; decide +kernel
 
 end Example
